@@ -4,7 +4,6 @@ from .util import LEAN_DIR, VERIF, log, write_if_changed
 
 ALLOWED_AXIOMS = {"propext", "Classical.choice", "Quot.sound"}
 FORBIDDEN = re.compile(r"\bsorry\b|\badmit\b|^\s*axiom\s|\bnative_decide\b|\bbv_decide\b|implemented_by|\bunsafe\s|maxHeartbeats\s+0\b|\bpartial\s+def\b|@\[extern")
-DRIVER = os.path.join(LEAN_DIR, ".lake", "build", "bin", "squid-model")
 
 
 class LeanLock:
@@ -82,17 +81,31 @@ def theorems_of(mod):
     return res
 
 
+LAKE_HEAD = """name = "squidmodel"
+version = "0.1.0"
+defaultTargets = ["SquidModel"]
+
+[[lean_lib]]
+name = "SquidModel"
+
+[[lean_lib]]
+name = "Driver"
+"""
+
+
+def driver_path(model):
+    return os.path.join(LEAN_DIR, ".lake", "build", "bin", "model-" + model)
+
+
 def gen_main():
-    """Driver/Main.lean dispatches to every Driver/<Model>.lean present."""
+    """lakefile.toml gets one lean_exe per Driver/<Model>.lean (root Driver.<Model>, which defines `main`),
+    so that a driver under construction for one property cannot break the build of another."""
     mods = sorted(os.path.basename(p)[:-5] for p in glob.glob(os.path.join(LEAN_DIR, "Driver", "*.lean")))
     mods = [m for m in mods if m not in ("Main", "Loop")]
-    lines = ["-- GENERATED by lib/vf/leanp.py gen_main: dispatch to the per-model line drivers", "import Driver.Loop"]
-    lines += ["import Driver.%s" % m for m in mods]
-    lines += ["", "def main (args : List String) : IO UInt32 := do", "  match args with"]
+    text = LAKE_HEAD
     for m in mods:
-        lines.append("  | [\"%s\"] => Driver.%s.main" % (m.lower(), m))
-    lines += ["  | _ => do", "    IO.eprintln \"usage: squid-model <model>\"", "    return 2", ""]
-    write_if_changed(os.path.join(LEAN_DIR, "Driver", "Main.lean"), "\n".join(lines))
+        text += '\n[[lean_exe]]\nname = "model-%s"\nroot = "Driver.%s"\n' % (m.lower(), m)
+    write_if_changed(os.path.join(LEAN_DIR, "lakefile.toml"), text)
 
 
 def lake_build(targets, timeout=3000):
@@ -161,11 +174,18 @@ def audit(pid, prop_mod, extra_mods=()):
             "closure": closure, "cmd": "lake env lean Audit/%s.lean" % pid}
 
 
-def prove(pid, prop_mod, extra_mods=(), thorough=False):
+def prove(pid, prop_mod, extra_mods=(), thorough=False, model=None):
     """Returns dict(ok, obligations, discharged, failures, ...). Must be called under LeanLock."""
     gen_main()
-    ok, out, secs = lake_build([prop_mod, "squid-model"] + list(extra_mods))
-    res = {"ok": ok, "build_s": secs, "cmds": ["lake build %s squid-model" % prop_mod], "failures": [], "build_output_tail": ""}
+    targets = [prop_mod] + list(extra_mods)
+    ok, out, secs = lake_build(targets)
+    res = {"ok": ok, "build_s": secs, "cmds": ["lake build " + " ".join(targets)], "failures": [], "build_output_tail": ""}
+    if model:
+        # the driver is built separately: the model may still build when a proof broke
+        dok, dout, _ = lake_build(["model-" + model])
+        res["driver_ok"] = dok
+        if not dok:
+            res["driver_output_tail"] = dout[-2000:]
     if not ok:
         res["failures"] = failing_decls(out)
         res["build_output_tail"] = out[-4000:]
